@@ -3,7 +3,9 @@
 (* are validated against the run protocol of PeerInput.tla (batch scheme of             *)
 (* TrNegotiation: one initial state per trace, register t0 = furthest line consumed).   *)
 (* TLC decides C09_NoPanic / C09_Terminates per trace: an outcome PANIC or STALL (or a   *)
-(* crash of the process) matches no action; "end" needs a quiescent state.              *)
+(* crash of the process) matches no action - of Serve (each call of it), of a helper /   *)
+(* application call, of Close; "end" needs a quiescent state: every call of Serve the    *)
+(* life of the session asks for was made and has returned, every call has returned.      *)
 EXTENDS PeerInput, Json
 
 Trace == ndJsonDeserialize("trace.ndjson")
@@ -16,13 +18,28 @@ EndOf(i) == Trace[i].end
 IsEv(e) == l < EndOf(t0) /\ Trace[l].ev = e /\ l' = l + 1
 
 TInit == /\ t0 \in Starts /\ l = t0
-         /\ n = 0 /\ cfg = "listen" /\ pos = 0 /\ eof = FALSE /\ served = "running" /\ ncalls = 0 /\ nret = 0
-         /\ loc = "clean" /\ cancelled = FALSE
+         /\ n = 0 /\ cfg = "listen" /\ life = "fresh" /\ pos = 0 /\ eof = FALSE /\ served = "idle" /\ nserve = 0
+         /\ outclosed = FALSE /\ ncalls = 0 /\ nret = 0 /\ loc = "clean" /\ cancelled = FALSE
 
-(* the reset line carries the scenario constants: number of items, handler configuration *)
+(* the reset line carries the scenario constants: number of items, handler configuration,    *)
+(* the identity of the session (its kind and the class of its local address: one of          *)
+(* Sessions) and what the application does with it (its life) - and the session as the        *)
+(* driver OBSERVED it after the constructor of the library had returned (oaddr, olocal): the  *)
+(* class of its local address and the address itself must be the ones the generator means.    *)
+(* Otherwise the construction did not make the session of the scenario: no verdict about the   *)
+(* library (a trace rejected HERE is reported as undecided, like a setup that did not          *)
+(* establish its state).  In the lives "fresh" and "again" the application calls Serve as      *)
+(* soon as the constructor has returned: the reset line stands for that first call as well     *)
+(* (ServeStart); every later call of Serve is an event of its own.                             *)
 TrReset == /\ l = t0 /\ IsEv("reset")
            /\ n' = Trace[l].n /\ cfg' = Trace[l].cfg /\ cfg' \in Cfgs
-           /\ UNCHANGED <<pos, eof, served, ncalls, nret, loc, cancelled>>
+           /\ life' = Trace[l].life /\ life' \in Lives /\ n' <= MaxItemsOf(life')
+           /\ Sess(Trace[l].kind, Trace[l].addr) \in Sessions
+           /\ Trace[l].oaddr = Trace[l].addr /\ Trace[l].olocal = LocalOfAddr(Trace[l].addr)
+           /\ (IF life' \in {"fresh", "again"} THEN served' = "running" /\ nserve' = 1 ELSE UNCHANGED <<served, nserve>>)
+           /\ UNCHANGED <<pos, eof, outclosed, ncalls, nret, loc, cancelled>>
+TrServe == IsEv("serve") /\ ServeStart
+TrClose == IsEv("close") /\ LocalClose(Trace[l].out)
 TrFeed == IsEv("feed") /\ Feed(Trace[l].i, Trace[l].cut)
 (* an application action.  "loc" is the local state of the extension the driver OBSERVED     *)
 (* after the action ("?" where it has no means to observe it): it must be the one the run     *)
@@ -46,7 +63,8 @@ TrEnd == IsEv("end") /\ Quiescent /\ ncalls <= Trace[t0].napp /\ UNCHANGED vars
 TrSkipped == IsEv("skipped") /\ l' = EndOf(t0) /\ UNCHANGED vars
 
 TNext == /\ l < EndOf(t0)
-         /\ \/ TrReset \/ TrFeed \/ TrApp \/ TrEof \/ TrServeRet \/ TrCancel \/ TrAppRet \/ TrEnd \/ TrSkipped
+         /\ \/ TrReset \/ TrServe \/ TrClose \/ TrFeed \/ TrApp \/ TrEof \/ TrServeRet \/ TrCancel \/ TrAppRet \/ TrEnd
+            \/ TrSkipped
          /\ UNCHANGED t0
 TSpec == TInit /\ [][TNext]_tvars
 
